@@ -23,7 +23,7 @@ Inductive status := Pending | Ready | Wasted | BakedErr.
 
 Definition is_ready (s : status) : bool := match s with Ready => true | _ => false end.
 
-Fixpoint set_nth {A} (k : nat) (x : A) (l : list A) : list A :=
+Fixpoint set_nth {A} (k : nat) (x : A) (l : list A) {struct l} : list A :=
   match l, k with
   | [], _ => []
   | _ :: t, O => x :: t
